@@ -675,6 +675,30 @@ impl ClusterState {
     }
 }
 
+/// Verification hook: `update_tablets` (what the cluster worker does with tablet info received
+/// in response payloads) with plain data.
+#[cfg(scylla_verif)]
+impl ClusterState {
+    #[allow(missing_docs)]
+    pub fn verif_update_tablets(
+        &mut self,
+        tablets: &[(String, String, i64, i64, Vec<(Uuid, crate::routing::Shard)>)],
+    ) {
+        let raw = tablets
+            .iter()
+            .map(|(ks, table, first, last, replicas)| {
+                (
+                    TableSpec::owned(ks.clone(), table.clone()),
+                    crate::routing::locator::tablets::verif::make_raw_tablet(
+                        *first, *last, replicas,
+                    ),
+                )
+            })
+            .collect();
+        self.update_tablets(raw);
+    }
+}
+
 /// Additional API for interop-based code.
 #[cfg(all(scylla_unstable, feature = "unstable-csharp-rs"))]
 impl ClusterState {
